@@ -77,7 +77,7 @@ def run(p, led, tier):
     def mk_tcell(it, nviol, manual):
         profile = Obj(prof, dict(agent_id="a1", canary_accuracy_min=Unknown("canary_accuracy_min")))
         it.stubs["BaselineProfile.check"] = lambda interp, args, kwargs: [f"v{i} out of range" for i in range(nviol)]
-        tc = it.instantiate(tcell, [], dict(profile=profile, repeated_anomaly_threshold=Unknown("repeated_anomaly_threshold"), anergy_threshold=Unknown("anergy_threshold")))
+        tc = it.instantiate(tcell, [], dict(profile=profile, repeated_anomaly_threshold=Unknown("repeated_anomaly_threshold", kind="int"), anergy_threshold=Unknown("anergy_threshold", kind="int")))
         tc.fields["anomaly_count"] = Unknown("anomaly_count")
         tc.fields["anergy_count"] = Unknown("anergy_count")
         tc.fields["manual_flag"] = manual
